@@ -292,6 +292,28 @@ func (e *env) checkTip(w *chain.World, report func(sig, desc string)) {
 			report("consensus.ApplyUpdate|json round trip|re-marshalled form differs", fmt.Sprint(err))
 		}
 		e.sample("C/apply-update", map[string]any{"height": w.Height(), "network": w.Spec.Name, "json": clip(js)})
+		// a RE-USED receiver (the subscriber's loop "var au ApplyUpdate; for ... { json.Unmarshal(msg, &au) }"): the
+		// previous block's update is decoded first, then this block's update into the same variable; nothing of the
+		// previous one may survive
+		if len(w.Hist) >= 2 {
+			var reused consensus.ApplyUpdate
+			jsPrev, errPrev := json.Marshal(w.Hist[len(w.Hist)-2].AU)
+			var err1, err2 error
+			if p, _ := vf.Try(func() {
+				if errPrev == nil {
+					err1 = json.Unmarshal(jsPrev, &reused)
+				}
+				err2 = json.Unmarshal(js, &reused)
+			}); p != nil || errPrev != nil || err1 != nil || err2 != nil {
+				report("consensus.ApplyUpdate|json decoded into a re-used receiver|own output rejected", fmt.Sprint(p, errPrev, err1, err2))
+			} else {
+				c.Count("updates:reused_receiver_decodes", 1)
+				e.compareUpdate("ApplyUpdate(re-used receiver)", a.AU, reused, allTracked(a.Snap.Store), a.PrevCS.Elements.NumLeaves, &fo, report)
+				if js3, err := json.Marshal(reused); err != nil || string(js3) != string(js) {
+					report("consensus.ApplyUpdate|json decoded into a re-used receiver|re-marshalled form differs", fmt.Sprint(err))
+				}
+			}
+		}
 	}
 	// --- RevertUpdate of the same block
 	if len(w.Hist) >= 2 {
@@ -309,6 +331,27 @@ func (e *env) checkTip(w *chain.World, report func(sig, desc string)) {
 				fo := a.Snap.Forest.Clone()
 				fo.Build()
 				e.compareUpdate("RevertUpdate", ru, ru2, allTracked(w.Store), a.PrevCS.Elements.NumLeaves, &fo, report)
+				// re-used receiver: the ApplyUpdate... of a different shape decoded first is not possible across types, so the
+				// receiver is primed with the revert update of the PREVIOUS block
+				if len(w.Hist) >= 3 {
+					pa := w.Hist[len(w.Hist)-2]
+					var reused consensus.RevertUpdate
+					var e1, e2 error
+					if p, _ := vf.Try(func() {
+						prev := consensus.RevertBlock(pa.PrevCS, pa.B, pa.BS)
+						jsPrev, _ := json.Marshal(prev)
+						e1 = json.Unmarshal(jsPrev, &reused)
+						e2 = json.Unmarshal(js, &reused)
+					}); p != nil || e1 != nil || e2 != nil {
+						report("consensus.RevertUpdate|json decoded into a re-used receiver|own output rejected", fmt.Sprint(p, e1, e2))
+					} else {
+						c.Count("updates:reused_receiver_decodes", 1)
+						e.compareUpdate("RevertUpdate(re-used receiver)", ru, reused, allTracked(w.Store), a.PrevCS.Elements.NumLeaves, &fo, report)
+						if js3, err := json.Marshal(reused); err != nil || string(js3) != string(js) {
+							report("consensus.RevertUpdate|json decoded into a re-used receiver|re-marshalled form differs", fmt.Sprint(err))
+						}
+					}
+				}
 			}
 		}
 	}
